@@ -8,6 +8,7 @@
 //! Exit status: 0 no violation, 1 violation(s) (each printed as a VIOLATION line), 2 machinery error.
 
 mod engine;
+mod family;
 mod inv;
 mod json;
 mod ksys;
@@ -136,6 +137,20 @@ pub fn run_bfs<S: System + 'static>(sys: S, a: &Args) -> ! {
     finish(rep, a)
 }
 
+pub fn run_family<S: System + 'static>(sys: S, a: &Args, hists: Vec<Vec<String>>) -> ! {
+    let sys: &'static S = Box::leak(Box::new(sys));
+    register(sys, a);
+    let rep = engine::run_histories(sys, &hists, a.num("threads", 16) as usize);
+    finish(rep, a)
+}
+
+pub fn family_sizes(a: &Args) -> Vec<usize> {
+    match a.get("sizes") {
+        Some(s) => s.split(',').filter_map(|x| x.parse().ok()).collect(),
+        None => family::SIZES.to_vec(),
+    }
+}
+
 pub fn run_replay<S: System + 'static>(sys: S, a: &Args, hist: &[String], want_sig: &str) -> ! {
     let sys: &'static S = Box::leak(Box::new(sys));
     register(sys, a);
@@ -173,7 +188,7 @@ fn main() {
     }
     let a = parse_args(&argv);
     match a.cmd.as_str() {
-        "bfs" => dispatch(&a, None),
+        "bfs" | "family" => dispatch(&a, None),
         "sweep" => sweeps::dispatch(&a),
         "replay" => {
             let file = a.get("_pos").unwrap_or_else(|| die("replay needs a file"));
@@ -188,7 +203,7 @@ fn main() {
             let mut a2 = parse_args(&sys_args);
             a2.kv.insert("replay-dir".into(), a.get("replay-dir").unwrap_or("/verif/target/replays-tmp").to_string());
             match a2.cmd.as_str() {
-                "bfs" => dispatch(&a2, Some((hist, sig))),
+                "bfs" | "family" => dispatch(&a2, Some((hist, sig))),
                 "sweep" => sweeps::dispatch(&a2),
                 _ => die("replay file: unknown command"),
             }
@@ -203,6 +218,10 @@ fn dispatch(a: &Args, replay: Option<(Vec<String>, String)>) -> ! {
         ($s:expr) => {{
             let s = $s;
             match &replay {
+                None if a.cmd == "family" => {
+                    let tmax = a.num("t", 5) as usize;
+                    run_family(s, a, family::k_histories(&family_sizes(a), tmax))
+                }
                 None => run_bfs(s, a),
                 Some((h, sig)) => run_replay(s, a, h, sig),
             }
@@ -247,6 +266,7 @@ fn msys_dispatch(a: &Args, sys: &str, replay: Option<(Vec<String>, String)>) -> 
         ($t:ty) => {{
             let s: MSys<$t> = MSys { n, hint, mode, f, prop, inj_budget: inj, _p: Default::default() };
             match &replay {
+                None if a.cmd == "family" => run_family(s, a, family::m_histories(&family_sizes(a))),
                 None => run_bfs(s, a),
                 Some((h, sig)) => run_replay(s, a, h, sig),
             }
